@@ -140,6 +140,15 @@ def transposeMat' (X : Mat α) : Mat α := (Array.range ((X.getD 0 #[]).size)).m
 def cdfF2x (phik : Mat α) (Bsel Bp : Array α) (alpha : Mat α) : Mat α :=
   matMul (matMul phik (f2xTmp Bsel Bp alpha)) (transposeMat' phik)
 
+/-- `_add_rf_flex` (diagonal system, `velo = False`): `phirf @ (ikrf[:, None] * phirf.T)` with `ikrf = 1.0 / krf` -/
+def rfFlex [Div α] (krf : Array α) (phirf : Mat α) : Mat α :=
+  matMul phirf (Array.zipWith (fun ki row => row.map fun x => (1 / ki) * x) krf (transposeMat' phirf))
+
+/-- `get_f2x(phi, velo)` of the cd-as-force solver: `phik @ tmp @ phik.T`, plus the rf flexibility for displacements -/
+def cdfGetF2x [Div α] (phik phirf : Mat α) (Bsel Bp krf : Array α) (alpha : Mat α) (velo : Bool) : Mat α :=
+  let flex := cdfF2x phik Bsel Bp alpha
+  if velo || krf.size == 0 then flex else matZip (· + ·) flex (rfFlex krf phirf)
+
 end f2x
 
 end PyYetiVerif.Cdf
